@@ -297,8 +297,9 @@ func init() {
 		ruleGRDrelink(w, r)
 		ruleGRDquerynorm(w, r)
 		ruleGRDdescent(w, r)
-		ruleGRDwiden(w, r)  // the distances the graph is built and searched with
-		ruleCDC12(w, r)     // a restart must not lose the tombstones live nodes link through
-		ruleGRDorphan(w, r) // delete everything, add again: the new vectors must be reachable
+		ruleGRDwiden(w, r)       // the distances the graph is built and searched with
+		ruleCDC12(w, r)          // a restart must not lose the tombstones live nodes link through
+		ruleGRDorphan(w, r)      // delete everything, add again: the new vectors must be reachable
+		ruleGRDbatchrounds(w, r) // batch insert: nodes of one batch can find each other
 	})
 }
